@@ -447,15 +447,22 @@ def _r5(run):
     run.note_func(f)
     ev = sym.make_evaluator(project, PIPE + ".cli", [], inline_local=True)      # marker tests may sit in a module helper,
     ev.unroll = True                                                            # driven by a literal table of markers
+    ev.inline_resolved = True                                                   # ... or in a method of the manager object
+    ev.no_inline = ("check_exists", "put_item", "get_item", "list_items")
     r = ev.run(f.node)
     ce = [e for e in r.events if e.kind == "call" and e.term[1][0] == "attr" and e.term[1][2] == "check_exists"]
     names = [e.term[2][1] for e in ce if len(e.term[2]) == 2]
     done = [e for e in ce if len(e.term[2]) == 2 and e.term[2][1] == ("const", SENTINEL)]
     if done:
         run.holds("C18.R5", f, done[0].node, "refresh treats the presence of '%s' in the store as 'already published'" % SENTINEL)
+    elif not ce:
+        run.undecided("C18.R5", f, None, "refresh does not ask the store for a marker file in any place the analysis follows", kind="sentinel-refresh-shape")
+    elif [n for n in names if n[0] != "const"] and not [e for e in ce if len(e.term[2]) != 2]:
+        run.undecided("C18.R5", f, ce[0].node, "refresh tests %s in the store: not constant file names" % [show(n)[:40] for n in names], kind="sentinel-refresh-shape")
     else:
+        what = [show(n) for n in names] if names else "the bare item (%s: no file name)" % show(ce[0].term)[:60]
         run.violated("C18.R5", f, ce[0].node if ce else None, "refresh tests %s in the store, but publish saves '%s' for last: the done-marker and the last-transferred file differ"
-                     % ([show(n) for n in names], SENTINEL), kind="sentinel-mismatch-refresh")
+                     % (what, SENTINEL), kind="sentinel-mismatch-refresh")
     g = project.fn(PIPE + ".cli.approve_impl") if (PIPE + ".cli.approve_impl") in project.funcs else None
     if g is not None:
         run.note_func(g)
